@@ -186,13 +186,15 @@ theorem rootOf_sound {p : GProg} {t r : LType} (h : rootOf p t = some r) : IsRoo
 
 /-! ### casts -/
 
-/-- An integer literal at an integer type denotes itself (no wrap-around in the spec either:
-the spec shares `castInt` with the linker). -/
+/-- An integer literal at an integer type denotes itself and lies in the range of that type
+(the spec shares `castInt` with the linker). -/
 theorem castF_int_exact {p : GProg} {f m : Nat} {n : Int} {t : LType} {bits : Nat} {v : CV}
-    (hk : rootKind p (rootOf p t) = .int bits) (h : castF (f + 1) p m (.int n) t = some v) : v = .int n := by
+    (hk : rootKind p (rootOf p t) = .int bits) (h : castF (f + 1) p m (.int n) t = some v) :
+    v = .int n ∧ inRange bits n := by
   simp only [castF, hk, castInt] at h
-  cases h
-  rfl
+  split at h
+  · rename_i hr; cases h; exact ⟨rfl, hr⟩
+  · cases h
 
 /-! ### the order of definitions in a file does not matter -/
 
